@@ -53,6 +53,7 @@ class Check:
         self.samples = []
         self.known = load_known()
         self.nat = None
+        self._nats = {}
 
     # -- running
     def run_group(self, name, overlays, jobs, expect_labels=(), witness_replay=True, confirm=None, deadline_s=None):
@@ -92,13 +93,15 @@ class Check:
                     cases.append({"id": cid, "entry": r["entry"], "args": r["args"], "vals": vals_of(w["inputs"])})
                     meta[cid] = ("wit", r, w)
         if cases:
-            nat = Native(overlays)
+            key = tuple(overlays)
+            nat = self._nats.get(key)
+            if nat is None:
+                nat = self._nats[key] = Native(overlays)  # one native build per overlay set and check run
             self.nat = nat
             try:
                 out = nat.replay(cases)
                 self._confirm_all(meta, out, confirm)
             finally:
-                nat.close()
                 self.nat = None
         return rs
 
@@ -159,6 +162,9 @@ class Check:
         return t, sorted(funcs), ends, excl
 
     def finish(self, level, text_rule, bounds, trusted=()):
+        for nat in self._nats.values():
+            nat.close()
+        self._nats = {}
         t, funcs, ends, excl = self.totals()
         samples = list(self.samples)
         rnd = random.Random(self.seed)
